@@ -302,8 +302,11 @@ def origins(body, place, at=None, extra_transparent=None, stop=None, max_steps=4
 _STRUCT_PRESERVING = re.compile(
     r"^core::ops::deref::Deref(Mut)?::deref(_mut)?$|^core::clone::Clone::clone$|^core::convert::As(Ref|Mut)::as_(ref|mut)$|"
     r"^core::borrow::Borrow(Mut)?::borrow(_mut)?$|^core::pin::Pin|^core::future::into_future::IntoFuture::into_future$|"
-    r"^alloc::boxed::Box::<T>::(new|pin)$|^alloc::sync::Arc::<T>::new$|^alloc::borrow::ToOwned::to_owned$|^core::mem::(take|replace)$")
-_WRAPS_ENUM = re.compile(r"^core::ops::try_trait::Try::branch$|^core::future::future::Future::poll$")
+    r"^alloc::boxed::Box::<T>::(new|pin)$|^alloc::sync::Arc::<T>::new$|^alloc::borrow::ToOwned::to_owned$|^core::mem::(take|replace)$|"
+    r"^core::iter::traits::collect::IntoIterator::into_iter$|^alloc::vec::Vec::<T, A>::(iter|iter_mut|into_iter|drain|as_slice)$|"
+    r"^core::slice::<impl \[T\]>::(iter|iter_mut)$|^core::iter::traits::iterator::Iterator::(peekable|cloned|copied|by_ref|rev|skip|take|fuse)$")
+_WRAPS_ENUM = re.compile(r"^core::ops::try_trait::Try::branch$|^core::future::future::Future::poll$|^core::iter::traits::iterator::Iterator::next$|"
+                         r"^core::iter::adapters::peekable::Peekable::<I>::(peek|peek_mut|next_if)$")
 _UNWRAPS = re.compile(r"^core::(option::Option|result::Result)::<.*>::(unwrap|expect|unwrap_or_default|unwrap_unchecked|as_ref|as_mut|as_deref|as_deref_mut|cloned|copied|take|ok|ok_or|ok_or_else|map_err|unwrap_or|unwrap_or_else)$")
 
 
@@ -660,7 +663,7 @@ def _bool_taint(body, seeds):
     return t
 
 
-def eval_guard(body, atom_vals, max_states=20000, start=0, env0=None, extra_tracked=()):
+def eval_guard(body, atom_vals, max_states=20000, start=0, env0=None, extra_tracked=(), no_nodes=()):
     """Path-sensitive abstract walk of the CFG under a valuation of atom calls.
 
     atom_vals: {bb_of_call: bool}  — the value returned by the (bool-returning) call terminating block bb.
@@ -736,6 +739,8 @@ def eval_guard(body, atom_vals, max_states=20000, start=0, env0=None, extra_trac
             nxt = body.succ[bb]
         et = tuple(sorted(env.items()))
         for s in nxt:
+            if s in no_nodes:
+                continue
             stack.append((s, et))
     return reach, rets
 
@@ -798,3 +803,31 @@ def return_truth_table(body, atoms):
         _, rets = eval_guard(body, dict(zip(atoms, vals)))
         out[vals] = rets
     return out
+
+
+# ------------------------------------------------------------------ finite orderings (K9)
+_CMP_NAMES = {"lt", "le", "gt", "ge", "eq", "ne"}
+
+
+def is_compare(call):
+    return call.f in ("core::cmp::PartialOrd::lt", "core::cmp::PartialOrd::le", "core::cmp::PartialOrd::gt",
+                      "core::cmp::PartialOrd::ge", "core::cmp::PartialEq::eq", "core::cmp::PartialEq::ne")
+
+
+def compare_value(name, ordering, a_first=True):
+    """truth value of `X <name> Y` where (X,Y) = (A,B) if a_first else (B,A), given the ordering of A vs B"""
+    o = ordering if a_first else {"<": ">", ">": "<", "=": "="}[ordering]
+    return {"lt": o == "<", "le": o in "<=", "gt": o == ">", "ge": o in ">=", "eq": o == "=", "ne": o != "="}[name]
+
+
+def ordering_valuations(cmps):
+    """cmps: list of (Call, a_first: bool). returns {'<': {bb: bool}, '=': {...}, '>': {...}}"""
+    out = {}
+    for o in ("<", "=", ">"):
+        out[o] = {c.bb: compare_value(c.name(), o, a_first) for c, a_first in cmps}
+    return out
+
+
+def eval_reach(body, atom_vals, no_nodes=(), start=0, env0=None):
+    """eval_guard that never enters the blocks in no_nodes; returns (reachable blocks, return values)"""
+    return eval_guard(body, atom_vals, start=start, env0=env0, no_nodes=set(no_nodes))
